@@ -229,12 +229,25 @@ def handler_size_sweep(chk, tier):
             continue
         totals = sorted({e["total"] for e in base["events"] if e["ev"] == "Alloc"})
         user = [t for t in totals if t > totals[len(totals) // 2]] if len(totals) > 40 else totals
-        pts = user[-(30 if tier == "quick" else 300):]
+        # every large allocation (the message copies and alternatives the handlers build) is a trip point, wherever its
+        # running total lies; the highest totals are added
+        large = sorted({e["total"] for e in base["events"] if e["ev"] == "Alloc" and e.get("size", 0) >= 900})
+        pts = sorted(set(large[:(40 if tier == "quick" else 400)]) | set(user[-(10 if tier == "quick" else 300):]))
         for T in pts:
             jobs.append(c09.mkjob(p, T - 1, "h%d@%d" % (pi, T - 1)))
     res = vf.run_jobs(jobs, "c06-hsweep", timeout_ms=120000)
     chk.count(len(jobs))
     sample = jobs if tier == "thorough" else jobs[::6]
+    # traces that go on allocating after their first refused allocation are validated as well, all of them (a handler
+    # that swallows the refusal lets the run continue, and a later allocation may still end it with the same violation)
+    sampled = {j["id"] for j in sample}
+    for j in jobs:
+        evs = res[j["id"]].get("events")
+        if j["id"] in sampled or not evs:
+            continue
+        i = c09.first_refusal(evs, j["limits"]["size"])
+        if i is not None and any(e["ev"] in ("Alloc", "CanAlloc") for e in evs[i + 1:]):
+            sample = sample + [j]
     vf.validate_job_traces(chk, sample, res, "c06-hsweep", "size limit inside an error handler")
     for j in jobs:
         r = res[j["id"]]
